@@ -1104,3 +1104,23 @@ mod test {
         assert!(size_of::<SentPacket>() <= 128);
     }
 }
+
+#[cfg(feature = "quinn_rs_quinn_verif")]
+impl PendingAcks {
+    pub(super) fn verif_new() -> Self {
+        Self::new()
+    }
+
+    /// (ack_eliciting_threshold, reordering_threshold)
+    pub(super) fn verif_thresholds(&self) -> (u64, u64) {
+        (self.ack_eliciting_threshold, self.reordering_threshold)
+    }
+}
+
+#[cfg(feature = "quinn_rs_quinn_verif")]
+impl PendingAcks {
+    /// `largest_packet`
+    pub(super) fn verif_largest_packet(&self) -> Option<(u64, Instant)> {
+        self.largest_packet
+    }
+}
